@@ -1,6 +1,108 @@
-import DdsModel.Drv.Util
+import DdsModel.EncTotal
+import DdsModel.Drv.C02
+namespace Dds.Drv.C15
+open Dds Dds.Drv Dds.EncTotal
+
+/-- the special values of the `Q` cases -/
+def specialOf : String → Option ExtReal
+  | "nan" => some .nan
+  | "pinf" => some .pinf
+  | "ninf" => some .ninf
+  | "zero" => some (.fin 0)
+  | "nzero" => some (.fin 0)
+  | "one" => some (.fin 1)
+  | "two" => some (.fin 2)
+  | "neg" => some (.fin (-1))
+  | "huge" => some (.fin ((10 : Rat) ^ 30))
+  | "nhuge" => some (.fin (-((10 : Rat) ^ 30)))
+  | "half" => some (.fin (1/2))
+  | _ => none
+
+/-- the encoded 1x1 pixel of the formats whose packing the model carries, as a little-endian
+number; the quantisers are evaluated in exact arithmetic (the generated inputs saturate or are
+exactly representable, so the result does not depend on the rounding) -/
+def encodePixel (fmt : String) (r g b a : ExtReal) : Option Nat :=
+  let R := Rounding.exact
+  let n (max ty : Nat) (x : ExtReal) := qUnormMin R max ty x
+  let n8 (x : ExtReal) := qUnormSat R 255 8 x
+  let n16 (x : ExtReal) := qUnormSat R 65535 16 x
+  match fmt with
+  | "B5G6R5_UNORM" => some (pack [(n 31 8 b, 5), (n 63 8 g, 6), (n 31 8 r, 5)])
+  | "B5G5R5A1_UNORM" => some (pack [(n 31 8 b, 5), (n 31 8 g, 5), (n 31 8 r, 5), (qN1 a, 1)])
+  | "B4G4R4A4_UNORM" => some (pack [(n 15 8 b, 4), (n 15 8 g, 4), (n 15 8 r, 4), (n 15 8 a, 4)])
+  | "A4B4G4R4_UNORM" => some (pack [(n 15 8 a, 4), (n 15 8 b, 4), (n 15 8 g, 4), (n 15 8 r, 4)])
+  | "R8G8B8A8_UNORM" => some (pack [(n8 r, 8), (n8 g, 8), (n8 b, 8), (n8 a, 8)])
+  | "B8G8R8A8_UNORM" => some (pack [(n8 b, 8), (n8 g, 8), (n8 r, 8), (n8 a, 8)])
+  | "R8G8B8A8_SNORM" =>
+    match qSnorm R 8 r, qSnorm R 8 g, qSnorm R 8 b, qSnorm R 8 a with
+    | some r, some g, some b, some a => some (pack [(r, 8), (g, 8), (b, 8), (a, 8)])
+    | _, _, _, _ => none
+  | "R16G16B16A16_UNORM" => some (pack [(n16 r, 16), (n16 g, 16), (n16 b, 16), (n16 a, 16)])
+  | "R16G16B16A16_SNORM" =>
+    match qSnorm R 16 r, qSnorm R 16 g, qSnorm R 16 b, qSnorm R 16 a with
+    | some r, some g, some b, some a => some (pack [(r, 16), (g, 16), (b, 16), (a, 16)])
+    | _, _, _, _ => none
+  | "R10G10B10A2_UNORM" => some (pack [(n 1023 16 r, 10), (n 1023 16 g, 10), (n 1023 16 b, 10), (n 3 8 a, 2)])
+  | "R10G10B10_XR_BIAS_A2_UNORM" =>
+    some (pack [(qXr10 R r, 10), (qXr10 R g, 10), (qXr10 R b, 10), (n 3 8 a, 2)])
+  | "AYUV" =>
+    let y := qYuv8 R (yRow (33/2)) r g b
+    let u := qYuv8 R (uRow (257/2)) r g b
+    let v := qYuv8 R (vRow (257/2)) r g b
+    some (pack [(v, 8), (u, 8), (y, 8), (n8 a, 8)])
+  | "Y410" =>
+    let y := qYuv10 R (yRow (129/2)) r g b
+    let u := qYuv10 R (uRow (1025/2)) r g b
+    let v := qYuv10 R (vRow (1025/2)) r g b
+    some (pack [(u, 10), (y, 10), (v, 10), (n 3 8 a, 2)])
+  | "Y416" =>
+    let y := qYuv16 R (yRow (8193/2)) r g b
+    let u := qYuv16 R (uRow (65537/2)) r g b
+    let v := qYuv16 R (vRow (65537/2)) r g b
+    some (pack [(u, 16), (y, 16), (v, 16), (n16 a, 16)])
+  | _ => none
+
+/-- `E <path> <format> <w> <h> <color> <pitchExtra> <content> <cseed> <quality> <dither> <metric> <parallel> <k|->`
+— colour, pitch, content, options do not influence the predicted result: that is the property.
+`Q <format> <r> <g> <b> <a>` -/
+def runC15 (line : String) : String :=
+  match toks line with
+  | ["E", path, fmt, w, h, color, pitch, content, cseed, q, d, m, par, k] =>
+    match lookup fmt, nat? w, nat? h, nat? color, nat? pitch, nat? cseed with
+    | some row, some w, some h, some color, some pitch, some _ =>
+      let fault : Option (Option Nat) := if k == "-" then some none else (nat? k).map some
+      let optsOk := ["fast", "normal", "high", "unr"].contains q && ["none", "color", "alpha", "both"].contains d
+        && ["uni", "perc"].contains m && ["0", "1"].contains par
+        && ["ord", "nan", "pinf", "ninf", "nzero", "huge", "sub", "h65504", "gt1", "lt0", "mix", "bits",
+            "nanalpha", "onepx", "zero", "max"].contains content
+      match fault with
+      | none => "bad-case"
+      | some fault =>
+        if color ≥ 12 ∨ pitch > 4096 ∨ w > 4096 ∨ h > 4096 ∨ !optsOk then "bad-case" else
+        let lp : Loop := if pitch = 0 then .contig 512 else .rows 512
+        let direct := let o := encode row lp w h fault; s!"{o.res.name} {o.bytes}"
+        if path == "d" then direct
+        else if path == "e" then
+          -- `Encoder::new`: support first, then the layout of the declared (raw) size
+          if !row.encodable then direct else
+          match layoutOf { width := w, height := h, depth := none, mipmapCount := 1,
+                           kind := .dx10 false .tex2D 1 } row.px with
+          | none => "panic"
+          | some (.error e) => s!"err Layout{errName e} 0"
+          | some (.ok _) => direct
+        else "bad-case"
+    | _, _, _, _, _, _ => "bad-case"
+  | ["Q", fmt, r, g, b, a] =>
+    match specialOf r, specialOf g, specialOf b, specialOf a with
+    | some r, some g, some b, some a =>
+      match encodePixel fmt r g b a with
+      | some v => s!"px {v}"
+      | none => "bad-case"
+    | _, _, _, _ => "bad-case"
+  | _ => "bad-case"
+
+end Dds.Drv.C15
+
 namespace Dds.Drv
-
-def runC15 (_line : String) : String := "not-modelled"
-
+def runC15 : String → String := C15.runC15
 end Dds.Drv
